@@ -200,4 +200,13 @@ def hashStep (entry : Entry) (body : Kind → HashBody) (comb : UInt64 → UInt6
     | .prog p => semHL P comb rec a p 0 (comb seed (P.hKind a.kind))   -- hash = Hash(e); p; return hash
     | .unsupported => none
 
+/-! ### the factory's string copy
+
+`buf` is the destination storage as `MakeStringLiteral` got it from the allocator (arbitrary bytes). -/
+def copyRun : List CopyStmt → List UInt8 → List UInt8 → List UInt8
+  | [], _, buf => buf
+  | .returnIfSizeZero :: rest, src, buf => if src.length = 0 then buf else copyRun rest src buf
+  | .copyBytes :: rest, src, buf => copyRun rest src (src ++ buf.drop src.length)
+  | .storeNulAtSize :: rest, src, buf => copyRun rest src (buf.set src.length 0)
+
 end MpVerif.C18
